@@ -41,9 +41,9 @@ def rule_key(ctx):
     news = {k: p.cls(f"{MSG}.news.New{k}Vector") for k in ("Text", "Number", "Switch", "BLOB")}
     parts = {k: p.cls(f"{MSG}.one_parts.One{k}") for k in ("Text", "Number", "Switch", "BLOB")}
     from .driverworld import build_drivers
-    kind_of = {"V1": "Text", "V2": "Number", "V22": "Light", "V3": "Switch", "V4": "BLOB"}
+    kind_of = {"V1": "Text", "V2": "Number", "V22": "Light", "V3": "Switch", "V4": "BLOB", "V5": "Text"}  # V5 is disabled: a write still reaches its elements (only the publication depends on enabled)
     cases = []
-    for target in ("V1", "V2", "V22", "V3", "V4", "NOPE", "W9"):
+    for target in ("V1", "V2", "V22", "V3", "V4", "V5", "NOPE", "W9"):
         for mk in ("Text", "Number", "Switch", "BLOB"):
             for children in (["A"], ["B", "A"], ["A", "ZZ", "B"], [], ["A", "A"]):
                 cases.append((target, mk, children))
@@ -60,7 +60,7 @@ def rule_key(ctx):
             msg = Obj(news[mk], {"device": Const("DEVA"), "name": Const(target), "children": Lst(kids), "timestamp": Const(None), "__closed__": Const(True)}, label="newVector")
             return it.run_function(Fn(f, drivers["DEVA"]), [msg], {})
 
-        paths = explore(p, run, {"inline": lambda fi, node: fi is fnm, "call_may_raise": None})
+        paths = explore(p, run, {"inline": lambda fi, node: fi is fnm or (fi.kind == "getter" and fi.module.name.startswith("indi.device.")), "call_may_raise": None})
         ctx.paths_enumerated += len(paths)
         row = f"new{mk}Vector device=DEVA name={target} children={children}"
         for pa in paths:
@@ -93,7 +93,7 @@ def rule_key(ctx):
     ctx.counters["C06.KEY:cases"] = n
     if not bad:
         ctx.holds("C06.KEY", f.short, f"{n} dispatch cases: only the named elements of the addressed, kind-matching property are written, in order", fi=f)
-    ctx.exhaustive_domains.append("7 targets x 4 message kinds x 5 child lists on a constructed two-driver world")
+    ctx.exhaustive_domains.append("8 targets x 4 message kinds x 5 child lists on a constructed two-driver world")
 
 
 def rule_submit(ctx):
@@ -301,7 +301,7 @@ def rule_conv(ctx):
 
 # 'subject only to the switch rule', addressing of the right device, and number text valid for any format is parsed
 # ... and the client's own view follows the resulting update (C15.MIRROR)
-IMPORTS = [('C09', 'C09.STEP'), ('C04', 'C04.DEV'), ('C10', 'C10.PARSE'), ('C02', 'C02.DECODE'), ('C02', 'C02.LOOP'), ('C02', 'C02.CONSUME'), ('C15', 'C15.MIRROR')]
+IMPORTS = [('C09', 'C09.STEP'), ('C04', 'C04.DEV'), ('C10', 'C10.PARSE'), ('C02', 'C02.DECODE'), ('C02', 'C02.LOOP'), ('C02', 'C02.CONSUME'), ('C15', 'C15.MIRROR'), ('C10', 'C10.SIGN')]
 
 RULES = [
     ("C06.KEY", rule_key, "dispatch: exactly the named elements of the addressed, kind-matching property; nothing else"),
